@@ -115,25 +115,24 @@ def r1(ctx):
                   'None if len < min; Some(median) iff count(in band) >= min; None otherwise', 'calculate_height_target table: %s' % describe_table(rows))
         # band: closure filter (lo..=hi).contains(x), lo = median + behind(neg), hi = median + ahead, inclusive
         cl = [k for k in prog.children(f)]
-        okband = False
+        e = ex(prog, f)
+        thr = P.cast(P.has(P.downcast('Continue', med)), 'i64')
+        LO = P.has(P.cast(P.call('core::num::saturating_add', thr, P.param('blocks_behind_threshold')), 'u64'))
+        HI = P.has(P.cast(P.call('core::num::saturating_add', thr, P.param('blocks_ahead_threshold')), 'u64'))
+        okband = lo_ok = hi_ok = False
         if len(cl) == 1:
             k = cl[0]
             ctx.touch(k)
-            rr = ex(prog, k).local(0)
-            okband = P.call('core::ops::range::RangeInclusive::contains', P.has(P.call('core::ops::range::RangeInclusive::new', P.has(P.upvar('lo')), P.has(P.upvar('hi')))), P.anything)(rr) or \
-                (P.call('core::ops::range::RangeInclusive::contains')(rr) and any(x == ('upvar', 'lo') for x in walk(rr)) and any(x == ('upvar', 'hi') for x in walk(rr)))
-        e = ex(prog, f)
-        thr = P.cast(P.has(P.downcast('Continue', med)), 'i64')
-        def band_local(nm, param):
-            for l in local_by_name(f, nm):
-                for x in e.def_exprs(l):
-                    for y in walk(x):
-                        if P.cast(P.call('core::num::saturating_add', thr, P.param(param)), 'u64')(y):
-                            return True
-            # tuple destructuring: (lo, hi) = (a, b)
-            return False
-        lo_ok = band_local('lo', 'blocks_behind_threshold') or any(P.cast(P.call('core::num::saturating_add', thr, P.param('blocks_behind_threshold')), 'u64')(y) for l in range(len(f.locals)) for x in e.def_exprs(l) for y in walk(x))
-        hi_ok = band_local('hi', 'blocks_ahead_threshold') or any(P.cast(P.call('core::num::saturating_add', thr, P.param('blocks_ahead_threshold')), 'u64')(y) for l in range(len(f.locals)) for x in e.def_exprs(l) for y in walk(x))
+            ek = ex(prog, k)
+            rr = ek.local(0)
+            if P.call('core::ops::range::RangeInclusive::contains', P.anything, P.anything)(rr):
+                rng = rr[2][0]
+                ups = [x for x in walk(rng) if x[0] == 'upvar']
+                okband = P.has(P.call('core::ops::range::RangeInclusive::new', P.anything, P.anything))(rng)
+                new_ = [x for x in walk(rng) if P.call('core::ops::range::RangeInclusive::new', P.anything, P.anything)(x)]
+                if new_:
+                    lo_ok = P.has(P.captured(ek, LO))(new_[0][2][0])
+                    hi_ok = P.has(P.captured(ek, HI))(new_[0][2][1])
         ctx.check(okband and lo_ok and hi_ok, 'R1', 'target:band', f, 'band = (median + (-behind)) ..= (median + ahead), inclusive on both ends', 'band construction not recognised (contains=%s lo=%s hi=%s)' % (okband, lo_ok, hi_ok))
     f = ctx.fn('R1', H + 'median')
     if f:
@@ -146,7 +145,7 @@ def r1(ctx):
         copy = [c for c in f.calls() if not c.cleanup and c.matches('alloc::slice::to_vec')]
         good = len(none) == 1 and bool(srt) and bool(copy) and len(idx) == 3 and all(g.dominates(srt[0].bb, i.bb) for i in idx)
         ctx.check(good, 'R1', 'median:sorted-copy', f, 'median sorts a copy before indexing; empty -> None', 'median does not sort a copy before indexing')
-        mv = [x for l in local_by_name(f, 'median_value') for x in table(prog, f, l)]
+        mv = [x for l in range(len(f.locals)) if len(table(prog, f, l)) == 2 for x in table(prog, f, l)]
         LEN = P.length(P.param('values'))
         MID = P.binop('Div', LEN, P.const(2))
         V = P.anything
